@@ -34,6 +34,10 @@ pub fn zip_history(cx: &mut Ctx, ops: &[(u32, Vec<u64>)]) {
         let n = a_.sh.len();
         let mut must_refuse: Option<bool> = None; // Some(true): has to be refused; Some(false): has to be carried out; None: either
         let mut bad: Option<String> = None;
+        // the mutating operations work on the vector itself: a refused one leaves *this* object behind and the history goes on with it
+        // (`before` is put back only after a panic that is reported as a failure)
+        let before = if matches!(*op, 4 | 8 | 9 | 10 | 12) { Some(a_.z.clone()) } else { None };
+        let mut refused_in_place = false;
         let r: Result<(), String> = match op {
             0 => { must_refuse = Some(a1 >= a2);
                    guarded(|| ZipIntVec::new(a0, a1, a2)).map(|z| { a_ = ZS { z, sh: vec![Some(a1 as u64); a0], lo: a1 as u64, hi: a2 as u64 }; }) }
@@ -44,8 +48,7 @@ pub fn zip_history(cx: &mut Ctx, ops: &[(u32, Vec<u64>)]) {
                    guarded(|| ZipIntVec::build_from_u32(&src)).map(|z| { a_ = ZS { z, sh: src.iter().map(|&x| Some(x as u64)).collect(), lo: src.iter().min().copied().unwrap_or(0) as u64, hi: src.iter().max().copied().unwrap_or(0) as u64 }; }) }
             4 => { // inside the declared range and the size: has to be stored; outside the size or below the minimum: has to be refused
                    must_refuse = if a0 >= n || (a1 as u64) < a_.lo { Some(true) } else if (a1 as u64) <= a_.hi { Some(false) } else { None };
-                   let mut z2 = a_.z.clone();
-                   guarded(move || { z2.set(a0, a1); z2 }).map(|z| { a_.z = z; if a0 < n { a_.sh[a0] = Some(a1 as u64); } }) }
+                   { let z = &mut a_.z; guarded(move || { z.set(a0, a1); }) }.map(|_| { if a0 < n { a_.sh[a0] = Some(a1 as u64); } }) }
             5 => { must_refuse = Some(a0 >= n); let z2 = &a_.z; // Some(false): an index below the size has to be answered
                    guarded(move || z2.get(a0)).map(|x| { if !known(&a_.sh, a0, x) { bad = Some(format!("get({}) = {} but a Vec holds {:?}", a0, x, a_.sh[a0])); } }) }
             6 => { must_refuse = Some(a0.checked_add(1).map_or(true, |j| j >= n)); let z2 = &a_.z;
@@ -53,17 +56,16 @@ pub fn zip_history(cx: &mut Ctx, ops: &[(u32, Vec<u64>)]) {
             7 => { must_refuse = Some(n == 0); let z2 = &a_.z;
                    guarded(move || z2.back()).map(|x| { if n > 0 && !known(&a_.sh, n - 1, x) { bad = Some(format!("back() = {} but a Vec holds {:?}", x, a_.sh[n - 1])); } }) }
             8 => { must_refuse = Some((a0 as u64) < a_.lo);
-                   let mut z2 = a_.z.clone();
-                   guarded(move || { z2.push_back(a0); z2 }).map(|z| { a_.z = z; a_.sh.push(Some(a0 as u64)); a_.hi = a_.hi.max(a0 as u64); }) }
-            9 => { must_refuse = Some(false); let mut z2 = a_.z.clone();
-                   guarded(move || { z2.resize(a0); z2 }).map(|z| { a_.z = z; a_.sh.resize(a0, None); }) }
-            10 => { must_refuse = Some(a1 >= a2); let mut z2 = a_.z.clone();
+                   { let z = &mut a_.z; guarded(move || { z.push_back(a0); }) }.map(|_| { a_.sh.push(Some(a0 as u64)); a_.hi = a_.hi.max(a0 as u64); }) }
+            9 => { must_refuse = Some(false); 
+                   { let z = &mut a_.z; guarded(move || { z.resize(a0); }) }.map(|_| { a_.sh.resize(a0, None); }) }
+            10 => { must_refuse = Some(a1 >= a2);
                    let fresh = a_.z.inner().mem_size() == 0;
-                   guarded(move || { z2.resize_with_range(a0, a1, a2); z2 }).map(|z| { a_.z = z; a_.lo = a1 as u64; a_.hi = a2 as u64;
+                   { let z = &mut a_.z; guarded(move || { z.resize_with_range(a0, a1, a2); }) }.map(|_| { a_.lo = a1 as u64; a_.hi = a2 as u64;
                        // a new range reinterprets what is stored: nothing is promised about the old elements (a vector that never held memory is all `min`)
                        a_.sh = vec![if fresh { Some(a1 as u64) } else { None }; a0]; }) }
             11 => { a_.z.clear(); a_.sh.clear(); a_.lo = 0; a_.hi = 0; Ok(()) }
-            12 => { must_refuse = Some(false); let mut z2 = a_.z.clone(); guarded(move || { z2.shrink_to_fit(); z2 }).map(|z| { a_.z = z; }) }
+            12 => { must_refuse = Some(false); { let z = &mut a_.z; guarded(move || { z.shrink_to_fit(); }) } }
             13 => { a_.z.swap(&mut b_.z); std::mem::swap(&mut a_.sh, &mut b_.sh); std::mem::swap(&mut a_.lo, &mut b_.lo); std::mem::swap(&mut a_.hi, &mut b_.hi); Ok(()) }
             14 => { let c = a_.z.clone(); a_.z = c; Ok(()) }
             15 => { if a_.z.uintbits() > 58 { Ok(()) } else { let z2 = &a_.z;
@@ -88,7 +90,8 @@ pub fn zip_history(cx: &mut Ctx, ops: &[(u32, Vec<u64>)]) {
             Err(msg) => {
                 // reading an element nothing was stored in (grown by resize, re-ranged) is not constrained: min_val + stale bits may even overflow
                 let unknown_read = match op { 5 | 15 => matches!(a_.sh.get(a0), Some(None)), 6 => matches!(a_.sh.get(a0), Some(None)) || matches!(a_.sh.get(a0.wrapping_add(1)), Some(None)), 7 => matches!(a_.sh.last(), Some(None)), _ => false };
-                if must_refuse == Some(false) && !unknown_read { cx.sum.fail(cell, class, cj.clone(), &format!("{} {:?} on {} elements panicked: {}", ZIP_OPS[*op as usize], a, n, msg)); } }
+                if must_refuse == Some(false) && !unknown_read { cx.sum.fail(cell, class, cj.clone(), &format!("{} {:?} on {} elements panicked: {}", ZIP_OPS[*op as usize], a, n, msg)); if let Some(b) = &before { a_.z = b.clone(); } }
+                else if before.is_some() { refused_in_place = true; cx.sum.dist(&format!("zip_refused_{}", ZIP_OPS[*op as usize])); } }
         }
         if let Some(d) = bad { cx.sum.fail(cell, class, cj.clone(), &d); }
         if !super::min0_carries_last_load(a_.z.inner()) || !super::min0_carries_last_load(b_.z.inner()) {
@@ -96,7 +99,48 @@ pub fn zip_history(cx: &mut Ctx, ops: &[(u32, Vec<u64>)]) {
             return; // reading on would be undefined behaviour
         }
         if a_.z.size() != a_.sh.len() || a_.z.is_empty() != a_.sh.is_empty() { cx.sum.fail(cell, class, cj.clone(), &format!("size {} but a Vec holds {}", a_.z.size(), a_.sh.len())); return; }
+        if refused_in_place {
+            // the refused operation changed nothing: every element the shadow knows reads back as before
+            for i in 0..a_.sh.len().min(300) {
+                if let Some(w) = a_.sh[i] {
+                    let got = { let z = &a_.z; guarded(move || z.get(i)) };
+                    if got.as_ref().ok().map(|x| *x as u64) != Some(w) { cx.sum.fail(cell, class, cj.clone(), &format!("after the refused {} {:?}: element {} reads {:?} but a Vec holds {}", ZIP_OPS[*op as usize], a, i, got, w)); break; }
+                }
+            }
+        }
     }
+}
+
+/// Deterministic family "refused operations inside histories" for ZipIntVec: a vector over lo..=hi is filled, then every documented refusal
+/// (set at / beyond the size, set and push_back below the minimum, new / resize_with_range with min >= max, get / get2 / back beyond the
+/// end) sits between operations that are carried out, with the second vector parked by swap; everything is read back at the end.
+pub fn refused_zip_histories() -> Vec<Vec<(u32, Vec<u64>)>> {
+    let mut out = vec![];
+    for (wi, &w) in [1u32, 7, 8, 9, 31, 32, 33, 57].iter().enumerate() {
+        let span = (1u64 << w) - 1;
+        let lo = [1000u64, 1, 1u64 << 40, 5][wi % 4];
+        let hi = lo + span;
+        let n = [1u64, 8, 9, 33][wi % 4];
+        let mut ops: Vec<(u32, Vec<u64>)> = vec![(0, vec![n, lo, hi])];
+        for i in 0..n { ops.push((4, vec![i, if i % 2 == 0 { hi } else { lo + span / 2 }])); }
+        ops.push((4, vec![n, lo]));          // index = size
+        ops.push((4, vec![0, lo - 1]));      // below the minimum, at an element that holds the maximum
+        ops.push((8, vec![lo - 1]));         // push below the minimum
+        ops.push((10, vec![n + 3, hi, lo])); // a range with min > max
+        ops.push((10, vec![n + 3, lo, lo])); // min = max
+        ops.push((5, vec![n])); ops.push((6, vec![n - 1])); ops.push((6, vec![u64::MAX]));
+        ops.push((8, vec![lo]));             // carried out
+        ops.push((4, vec![n + 1, lo]));      // refused, one beyond the new size
+        ops.push((13, vec![])); ops.push((7, vec![])); ops.push((4, vec![0, 0])); ops.push((13, vec![])); // the empty partner refuses back / set
+        ops.push((4, vec![n, hi]));          // carried out
+        ops.push((9, vec![n]));              // shrink by one
+        ops.push((4, vec![n, lo]));          // now refused
+        ops.push((12, vec![])); ops.push((8, vec![lo - 1])); ops.push((14, vec![])); ops.push((4, vec![n - 1, lo - 1]));
+        for i in 0..n { ops.push((5, vec![i])); }
+        ops.push((7, vec![])); ops.push((17, vec![])); ops.push((5, vec![n]));
+        out.push(ops);
+    }
+    out
 }
 
 pub fn gen_zip_history(r: &mut Rng) -> Vec<(u32, Vec<u64>)> {
